@@ -51,6 +51,7 @@ type Profile struct {
 	PLocPC       float64 // a constructor is provided with LocationForPC
 	GroupTypes   []int   // element types of value groups (default: the first two of Types)
 	Twins        bool    // dig.As lists may name the two same-printing interface types
+	Big          bool    // sizes beyond the usual: 8-16 results / parameters / flatten elements, deep scope chains
 	PVisualize   float64
 	PDefer       float64
 	PRecover     float64
@@ -138,7 +139,7 @@ func (g *gen) newFn() *Fn {
 
 func (g *gen) randResults(n int, allowGroup bool) []Res {
 	var rs []Res
-	for tries := 0; len(rs) < n && tries < 20; tries++ {
+	for tries := 0; len(rs) < n && tries < 20+2*n; tries++ {
 		if allowGroup && g.coin(g.p.PGroupRes) {
 			r := Res{K: g.randGroupKey()}
 			if r.K.T == tSliceV && g.coin(0.5) {
@@ -154,6 +155,9 @@ func (g *gen) randResults(n int, allowGroup bool) []Res {
 			if g.coin(g.p.PFlatten) {
 				r.Flatten = true
 				r.N = g.r.Intn(4)
+				if g.p.Big && g.coin(0.3) {
+					r.N = 8 + g.r.Intn(10)
+				}
 				r.Slice = g.randSlice()
 			}
 			rs = append(rs, r)
@@ -365,6 +369,10 @@ func genHistory(r *rand.Rand, p Profile) *History {
 	}
 	g.parent = []int{-1}
 	for i := 1; i < g.nScopes; i++ {
+		if p.Big && g.coin(0.7) {
+			g.parent = append(g.parent, i-1) // long chains
+			continue
+		}
 		g.parent = append(g.parent, g.r.Intn(i))
 	}
 	// plan constructors
@@ -388,6 +396,9 @@ func genHistory(r *rand.Rand, p Profile) *History {
 		nres := 1 + g.r.Intn(3)*g.r.Intn(2)
 		if g.coin(0.08) {
 			nres = 4 + g.r.Intn(2) // wide constructors: singles, named, group members and flatten results at once
+		}
+		if p.Big && g.coin(0.25) {
+			nres = 8 + g.r.Intn(9)
 		}
 		f.Results = g.randResults(nres, true)
 		if len(f.Results) == 0 {
@@ -486,6 +497,9 @@ func genHistory(r *rand.Rand, p Profile) *History {
 		npar := g.r.Intn(4)
 		if g.coin(0.06) {
 			npar = 5 + g.r.Intn(3)
+		}
+		if p.Big && g.coin(0.25) {
+			npar = 8 + g.r.Intn(9)
 		}
 		c.f.Params = g.randParams(npar, c.op.Scope, i)
 		c.f.Variadic = g.coin(p.PVariadic)
